@@ -78,6 +78,19 @@ Example c15_nonvacuous :
   is_redirect_status 304 = false /\ is_redirect_status 300 = true /\ is_redirect_status 400 = false.
 Proof. vm_compute. repeat split. Qed.
 
+
+(* ------------------------------------------------------------------ tie to the source by translation *)
+(** The Rust functions below are translated to Gallina from the repository's CURRENT sources on every run
+    (tools/rs2coq.py -> theories/Gen.v); they equal the model's functions for all arguments, so the theorems above
+    hold for what the code says now. A change of one of these functions that is not an equivalent rewrite breaks the
+    proof obligation here. *)
+From Hoot Require Import Gen.
+From Hoot.proofs Require Import Gen_equiv.
+Theorem c15_code_is_retaining : forall s, gen_is_retaining s = is_retaining s.
+Proof. exact gen_is_retaining_eq. Qed.
+Theorem c15_code_need_request_body : forall m, gen_need_request_body m = need_request_body m.
+Proof. exact gen_need_request_body_eq. Qed.
+
 Print Assumptions c15_table_307_308.
 Print Assumptions c15_table_other.
 Print Assumptions c15_as_new_flow.
@@ -86,3 +99,5 @@ Print Assumptions c15_enter_after_body.
 Print Assumptions c15_status.
 Print Assumptions c15_redirect_status_iff.
 Print Assumptions c15_nonvacuous.
+Print Assumptions c15_code_is_retaining.
+Print Assumptions c15_code_need_request_body.
